@@ -311,7 +311,7 @@ def check_after(tree, op, before_ms, removed, upd, enc):
 
 
 @with_signature(SPEC)
-def c03_step(**kw):
+def c03_step(kw):
     tree, nodes, lens_mode, nt, enc = build_state(kw)
     op = kw["op"]
     if enc:
@@ -339,7 +339,7 @@ STEP2_OPS = ["reseed_at", "reroot_at_edge", "to_outgroup_position", "prune_subtr
 
 
 @with_signature(SPEC + [("t3", int), ("g_upd", bool), ("g_sup", bool), ("g_x", bool)])
-def c03_two_steps(**kw):
+def c03_two_steps(kw):
     """Two operations in sequence: state carried outside the structural invariant (stale
     encodings, cached edge maps) shows up in the second step."""
     tree, nodes, lens_mode, nt, enc = build_state(kw)
@@ -362,11 +362,7 @@ def c03_two_steps(**kw):
     if current and tg.check_encoding_current(tree) is not None:
         return "step1:" + tg.check_encoding_current(tree)
     before = leaf_taxa_multiset(tree)
-    kw2 = dict(kw)
-    kw2["t1"] = kw["t3"]
-    kw2["f_upd"] = kw["g_upd"]
-    kw2["f_sup"] = kw["g_sup"]
-    kw2["f_x"] = kw["g_x"]
+    kw2 = kw.renamed(t1="t3", f_upd="g_upd", f_sup="g_sup", f_x="g_x")
     nt2 = nt
     try:
         removed, upd2 = apply_op(op2, tree, nodes, kw2, lens_mode, nt2, draws[4:])
